@@ -720,6 +720,29 @@ package ring
 //@   assigns p3
 //@   ensures val(p3) == old(val(p1)) + old(val(p2)) && mexp(p3) == old(mexp(p1)) && dom(p3) == ite(old(dom(p1)) == 2, old(dom(p2)), old(dom(p1)))
 
+//@ afunc Ring.MulScalar
+//@   trusted the ring-element reading of the row-level contract func Ring.MulScalar (every coefficient multiplied by the scalar)
+//@   assigns p2
+//@   ensures val(p2) == old(val(p1)) * scalar && mexp(p2) == old(mexp(p1)) && dom(p2) == old(dom(p1))
+
+//@ afunc Ring.MulScalarThenAdd
+//@   trusted the ring-element reading of the row-level contract func Ring.MulScalarThenAdd
+//@   requires ((isntt(p1) && isntt(p2)) || (iscoef(p1) && iscoef(p2))) && mexp(p1) == mexp(p2)
+//@   assigns p2
+//@   ensures val(p2) == old(val(p2)) + old(val(p1)) * scalar && mexp(p2) == old(mexp(p2)) && dom(p2) == old(dom(p2))
+
+// ---- Shamir share generation (property C15): the value of a vector of ring elements, read as a
+// ---- polynomial in one variable, at a public point.  A BOUNDED instance (three coefficients, the
+// ---- loop unwound), labelled so; machine products of unsigned integers wrap modulo 2^64.
+//@ afunc Ring.EvalPolyScalar#deg2
+//@   property C15
+//@   bounded one instance: three coefficients (threshold 3), loop unwound; not a proof for every length
+//@   case len(p1) == 3
+//@   unwind 4
+//@   requires 0 <= scalar && scalar < 18446744073709551616
+//@   requires ((isntt(p1[0]) && isntt(p1[1]) && isntt(p1[2])) || (iscoef(p1[0]) && iscoef(p1[1]) && iscoef(p1[2]))) && mexp(p1[0]) == mexp(p1[1]) && mexp(p1[1]) == mexp(p1[2])
+//@   ensures val(p2) == old(val(p1[0])) + old(val(p1[1])) * scalar + old(val(p1[2])) * scalar * scalar
+
 //@ afunc Ring.Sub
 //@   trusted
 //@   requires ((isntt(p1) && isntt(p2)) || (iscoef(p1) && iscoef(p2))) && mexp(p1) == mexp(p2)
@@ -1953,3 +1976,14 @@ package ring
 //@   ensures len(pol.Coeffs[0]) == N && cap(pol.Coeffs[0]) == N
 //@   ensures implies(Level >= 1, len(pol.Coeffs[1]) == N && cap(pol.Coeffs[1]) == N && !samearray(pol.Coeffs[0], pol.Coeffs[1]))
 //@   ensures implies(Level >= 2, len(pol.Coeffs[2]) == N && cap(pol.Coeffs[2]) == N && !samearray(pol.Coeffs[1], pol.Coeffs[2]) && !samearray(pol.Coeffs[0], pol.Coeffs[2]))
+
+// Horner evaluation of a vector of polynomials at a public point (Shamir share generation, C15):
+// safety contract - every index is in range, every callee gets its precondition and no machine
+// product or sum can wrap (a running power of the point kept in a uint64 would).  The invariant is
+// direction-neutral on purpose.  Poly.Copy (trusted) may change the length of the LOCAL header p2
+// to the level of the source; both lengths are required above r.level, so either reading is covered.
+//@ func Ring.EvalPolyScalar
+//@   property C15
+//@   requires ringwf(r) && len(p1) >= 1 && r.level < len(p2.Coeffs)
+//@   requires forall(k, 0, len(p1), r.level < len(p1[k].Coeffs))
+//@   loop 0 invariant 0 <= i && i <= len(p1)
